@@ -118,6 +118,9 @@ func c16Policies() [][]spec.Op {
 		{{K: spec.KUGC}, sp},
 		{{K: spec.KUGC}, {K: spec.KComments}},
 		{{K: spec.KStrict}, sp},
+		// AllowUnsafe(true): script/style text is written raw at two further write sites
+		{{K: spec.KNew}, el("b", "script", "style"), {K: spec.KAllowAttrs, Attrs: []string{"src", "type"}, Scope: "els", Names: []string{"script", "style"}}, {K: spec.KUnsafe, B: true}, {K: spec.KComments}},
+		{{K: spec.KUGC}, el("style"), {K: spec.KUnsafe, B: true}, sp},
 		{{K: spec.KNew}, {K: spec.KAllowNoAttrs, Scope: "match", ElRe: `^[a-z]+$`}, {K: spec.KAllowAttrs, Attrs: []string{"x"}, Scope: "match", ElRe: `^[a-z]+$`}, {K: spec.KComments}, sp},
 	}
 }
@@ -128,7 +131,7 @@ func c16Input(cs *core.Case, env *Env) string {
 		return env.HostileInput(r)
 	}
 	// compact inputs that hit every write site
-	parts := []string{"<b>", "</b>", "text", "<!-- c -->", "<br/>", "<br>", "<a href=\"http://example.org/\">", "</a>", "<a>", "<x>", "</x>", "<x/>", "<img/>", "<img title=t/>", "<img src=x>", "&amp;", " ", "<iframe>", "</iframe>", "<script>s</script>", "<p title=q>", "</p>", "<!-->", "<!DOCTYPE html>", "<object>", "</object>", "é"}
+	parts := []string{"<b>", "</b>", "text", "<!-- c -->", "<br/>", "<br>", "<a href=\"http://example.org/\">", "</a>", "<a>", "<x>", "</x>", "<x/>", "<img/>", "<img title=t/>", "<img src=x>", "&amp;", " ", "<iframe>", "</iframe>", "<script>s</script>", "<style>b{}</style>", "<script src=x></script>", "<style>", "</style>", "<p title=q>", "</p>", "<!-->", "<!DOCTYPE html>", "<object>", "</object>", "é"}
 	n := 1 + r.Intn(10)
 	var b strings.Builder
 	for i := 0; i < n; i++ {
@@ -192,6 +195,9 @@ func runC16(ctx *core.Ctx) {
 					cs.Eval()
 					lc["writer_faults_injected"]++
 					lc["faulted_write:"+cls]++
+					if env.Spec.Unsafe && cls == "text" {
+						lc["faulted_write:text-under-allow-unsafe"]++
+					}
 					modeName := []string{"permanent", "transient", "short-write"}[mode]
 					sigSfx := cls + ":" + modeName
 					if len(fw.events) <= k {
@@ -257,5 +263,6 @@ func runC16(ctx *core.Ctx) {
 		ctx.Floor("faulted_write:"+c, 1000)
 	}
 	ctx.Floor("reader_faults_injected", 50000)
+	ctx.Floor("faulted_write:text-under-allow-unsafe", 500)
 	_ = bluemonday.NewPolicy
 }
